@@ -12,7 +12,7 @@ CLAUSES = {
     "particle-vars-equal": "per-particle variables in those files are equal",
 }
 BOUNDS = {
-    "quick": "one scenario on the real ROMS grid/forcing (rebuilt at the restart time; symbolic release depth) plus, with plug-in grid/forcing: Nsteps 4..7, period 1..2, numrec 1..2, restart from every completed file but the last, continuous release every 2 steps (+ one late discrete row), one IBM kill (symbolic flag, any step), IBM age variable, scalar forcing, EF/RK2/RK4; positions, velocity, particle values symbolic",
+    "quick": "one scenario on the real ROMS grid/forcing (rebuilt at the restart time; symbolic release depth) plus, with plug-in grid/forcing: Nsteps 4..7, period 1..2, numrec 1..2, restart from every completed file but the last, continuous release every 2 steps (+ one late discrete row; + two scenarios with a second source row at a symbolic step on or off the frequency grid), one IBM kill (symbolic flag, any step), IBM age variable, scalar forcing, EF/RK2/RK4; positions, velocity, particle values symbolic",
     "thorough": "Nsteps up to 8, period 1..3, numrec 1..3",
 }
 ASSUMES = ["values are stored exactly (output precision is outside the claim)", "diffusion off", "plug-in grid/forcing with constant velocity (the ROMS forcing restart is C03's time-shift argument)"]
@@ -28,6 +28,9 @@ def scenarios(tier):
     if not q:
         out.append(dict(name="roms-N6-P1-R2-RK4", fn="run", params=dict(N=6, P=1, R=2, adv="RK4", roms=True), cost=90))
     out.append(dict(name="leaves-grid-N6-P1-R1-EF", fn="run", params=dict(N=6, P=1, R=1, adv="EF", fast=True), cost=30))
+    # release table with a second source at a symbolic step (on or off the release-frequency grid of the first row)
+    out.append(dict(name="tworows-N6-P1-R1-EF", fn="run", params=dict(N=6, P=1, R=1, adv="EF", tworows=True), cost=40))
+    out.append(dict(name="tworows-N7-P2-R1-EF", fn="run", params=dict(N=7, P=2, R=1, adv="EF", tworows=True), cost=40))
     for (N, P, R) in combos:
         for adv in (("EF",) if (N, P, R) != (6, 2, 1) else ("EF", "RK2", "RK4")):
             out.append(dict(name=f"N{N}-P{P}-R{R}-{adv}", fn="run", params=dict(N=N, P=P, R=R, adv=adv), cost=N * 3))
@@ -80,6 +83,9 @@ def run(W, p):
     # continuous release from the start (one row, every 2 steps)
     if p.get("roms"):
         W.table(tmp / "r.rls", ["release_time", "X", "Y", "Z", "w0"], [[W.dt(T0), x0, 3, W.real("z0", 0, 99), w0]])
+    elif p.get("tworows"):
+        r2 = W.idx(W.int("second_row_step", 1, N - 2))
+        W.table(tmp / "r.rls", ["release_time", "X", "Y", "Z", "w0"], [[W.dt(T0), x0, 10, 5, w0], [W.dt(T0 + r2 * DT), x0 + 1, 12, 7, w0 + 1]])
     else:
         W.table(tmp / "r.rls", ["release_time", "X", "Y", "Z", "w0"], [[W.dt(T0), x0, 10, 5, w0]])
     cfgA = _config(W, tmp, tmp / "A", p, x0, u, temp, w0, kill)
